@@ -29,8 +29,13 @@ def member_templates(crate):
     return b, out
 
 
-def _only_calls(body, local, rx):
-    org = origins(body, local, stop=[rx], transparent=True)
+def _comp(proj):
+    p = [x for x in (proj or []) if x != "*"]
+    return int(p[0][1:]) if p and re.match(r"^\.\d+$", p[0]) else None
+
+
+def _only_calls(body, local, rx, proj=None):
+    org = origins(body, local, stop=[rx], transparent=True, component=_comp(proj))
     calls = [o for o in org if o["kind"] == "call"]
     return bool(calls) and all(fn_matches(o["t"], rx) for o in calls) and not any(o["kind"] in ("arg", "const") for o in org)
 
@@ -46,8 +51,8 @@ def quoting_rule(crate, prop, rule="C04.R2"):
             r.fail(prop, "member-template-shape format_field", "member template literal %r is not `<docs><name>[?]: <type>,`" % lit, t.file, t.line)
             continue
         name_local = slots[1] if len(slots) > 1 else None
-        ok = name_local is not None and _only_calls(b, name_local, r"utils::raw_name_to_ts_field$")
-        r.inst(fn=FIELD_FN, where="%s:%s" % (t.file, t.line), template=lit, name_slot_from=sorted({(M.callee(o["t"]) or "?") if o["kind"] == "call" else o["kind"] for o in origins(b, name_local, stop=[r"utils::raw_name_to_ts_field$"], transparent=True)}) if name_local is not None else None, quoted=ok)
+        ok = name_local is not None and _only_calls(b, name_local, r"utils::raw_name_to_ts_field$", t.projs[1] if len(t.projs) > 1 else None)
+        r.inst(fn=FIELD_FN, where="%s:%s" % (t.file, t.line), template=lit, name_slot_from=sorted({(M.callee(o["t"]) or "?") if o["kind"] == "call" else o["kind"] for o in origins(b, name_local, stop=[r"utils::raw_name_to_ts_field$"], transparent=True, component=_comp(t.projs[1] if len(t.projs) > 1 else None))}) if name_local is not None else None, quoted=ok)
         if not ok:
             r.fail(prop, "unquoted-property-name format_field", "the property name interpolated into %r at line %s is not the direct result of raw_name_to_ts_field(..): names such as `foo-bar` would be emitted unquoted" % (lit, t.line), t.file, t.line)
     r.floor = 2
@@ -62,7 +67,7 @@ def docs_slot_rule(crate, prop, rule="C15.R2a"):
         return r
     for t, lit, slots in mts:
         l0 = slots[0] if slots else None
-        calls, _, consts = M.deep_slice(b, l0) if l0 is not None else ([], set(), [])
+        calls, _, consts = M.deep_slice(b, l0, component=_comp(t.projs[0] if t.projs else None)) if l0 is not None else ([], set(), [])
         # the choice between the two is made by `docs.is_empty()`: the formatted alternative sits behind its false edge
         from rules.export_rules import _bool_switch
         tests_docs = False
@@ -403,3 +408,48 @@ def _edge_constraints_of_switch(body, blk):
         if i != "term" and d["rv"]["k"] == "discr":
             out.append((_subject(body, d["rv"]["pl"]), None))
     return out
+
+
+# ------------------------------------------------------------------ documentation stays documentation
+
+DOC_OPS = [r"ops::Deref::deref$", r"ops::Add::add$", r"ops::AddAssign::add_assign$", r"clone::Clone::clone$", r"String::is_empty$", r"str::<impl str>::is_empty$",
+           r"fmt::rt::Argument.*::new_display", r"cmp::PartialEq::(eq|ne)$", r"ToTokens::to_tokens$", r"::as_ref$", r"::as_str$", r"Borrow::borrow$",
+           r"String::push_str$", r"String::push$", r"mem::take$", r"mem::replace$", r"ToOwned::to_owned$", r"ToString::to_string$", r"From::from$", r"Into::into$",
+           r"Option::<T>::(unwrap_or_default|unwrap_or)$"]
+
+
+def docs_operations_rule(crate, prop, rule="C15.R1"):
+    r = Result(rule, "documentation text is only ever copied, concatenated, tested for emptiness, and printed: every operation the derive applies to a value that comes from a `docs` field (of an attribute value or of DerivedTS) - in whichever function, helpers that receive it as a parameter included - is one of clone / deref / + / is_empty / == / Display / to_tokens / push_str; nothing inspects or transforms its content (contains, starts_with, len, split, ..), so a doc comment cannot decide what is declared")
+    work = [(b, None) for b in crate.bodies]          # (body, parameter locals that carry docs)
+    done = set()
+    n = 0
+    while work:
+        b, params = work.pop()
+        key = (b.path, tuple(sorted(params)) if params else None)
+        if key in done:
+            continue
+        done.add(key)
+        for blk, t in b.calls():
+            if b.is_cleanup(blk) or not t.get("fn"):
+                continue
+            for k, a in enumerate(t["args"]):
+                desc, root = panics.operand_origin_ex(b, a)
+                is_docs = bool(re.search(r"(Attr|DerivedTS)\.docs$", desc)) or (params is not None and desc.startswith("param ") and root in params)
+                if not is_docs:
+                    continue
+                n += 1
+                ok = fn_matches(t, *DOC_OPS)
+                f, l = M.user_span(t["span"])
+                if not ok:
+                    tg = crate.call_targets(b, t, ())
+                    if len(tg) == 1 and tg[0].kind in ("Fn", "AssocFn") and tg[0].raw["arg_count"] == len(t["args"]) and len(done) < 400:
+                        work.append((tg[0], frozenset({k + 1})))       # the helper is examined with that parameter marked
+                        r.inst(fn=b.path, operation=M.callee(t), on=desc, where="%s:%s" % (f, l), verdict="handed to a function of the crate (examined)")
+                        continue
+                r.inst(fn=b.path, operation=M.callee(t), on=desc, where="%s:%s" % (f, l), verdict="copy/print" if ok else "INSPECTS")
+                if not ok:
+                    r.fail(prop, "docs-read-outside-doc-sinks %s" % re.sub(r"::\{closure#\d+\}", "", b.path),
+                           "%s is applied to documentation text (%s): a doc comment could influence what is declared" % (M.callee(t), desc), f, l)
+    r.stats = {"operations_on_docs": n}
+    r.floor = 10
+    return r
